@@ -116,7 +116,8 @@ fn main() {
             let target = actors[rng.next(4)];
             let gsel = if rng.next(4) == 0 { 2 } else { 1 }; let grp = groups[rng.next(gsel)];
             let lv = [0u8, 1, 2, 3][rng.next(4)];
-            let action = match rng.next(6) {
+            let action = match rng.next(7) {
+                6 => GroupAction::Add { member: GroupMember::Group('G'), access: access(None, lv.min(2)) },
                 0 => GroupAction::Add { member: GroupMember::Individual(target), access: access(None, lv) },
                 1 => GroupAction::Remove { member: GroupMember::Individual(target) },
                 2 => GroupAction::Promote { member: GroupMember::Individual(target), access: access(None, lv.max(1)) },
@@ -124,8 +125,10 @@ fn main() {
                 4 => GroupAction::Create { initial_members: vec![(GroupMember::Individual(author), access(None, 3)), (GroupMember::Individual(target), access(None, lv))] },
                 _ => GroupAction::Add { member: GroupMember::Group('H'), access: access(None, lv.min(2)) },
             };
-            let grp = if matches!(action, GroupAction::Create { .. }) { 'H' } else if matches!(action, GroupAction::Add { member: GroupMember::Group(_), .. }) { 'G' } else { grp };
+            let grp = if matches!(action, GroupAction::Create { .. }) { 'H' } else if matches!(action, GroupAction::Add { member: GroupMember::Group('G'), .. }) { 'H' } else if matches!(action, GroupAction::Add { member: GroupMember::Group(_), .. }) { 'G' } else { grp };
             let mut deps = ys[r].heads(); deps.sort();
+            // now and then a dependency is listed twice (the list is a set: repeating an entry must not matter)
+            if deps.len() == 1 && rng.next(5) == 0 { deps.push(deps[0]); }
             let op = Op { id, author, deps, group: grp, action };
             // the creator validates its own operation; rejected ones are never published. Creating H twice or acting on
             // a group the replica does not know is not generated (process would panic on a missing group state).
@@ -190,7 +193,50 @@ fn main() {
                 &["bounded-stand-in"]);
         }
     } } } }
+    // ---- part 4: directed histories, every listed causal delivery order must give the same acceptance and the same members
+    {
+        let mk = |id: u32, author: char, deps: Vec<u32>, group: char, action: GroupAction<char, Cond>| Op { id, author, deps, group, action };
+        let ind = |c: char| GroupMember::Individual(c);
+        let scenarios: Vec<(&str, Vec<Op>, Vec<Vec<usize>>)> = vec![
+            ("two groups nested into each other concurrently", vec![
+                mk(0, 'A', vec![], 'G', GroupAction::Create { initial_members: vec![(ind('A'), access(None, 3)), (ind('B'), access(None, 3))] }),
+                mk(1, 'B', vec![0], 'H', GroupAction::Create { initial_members: vec![(ind('B'), access(None, 3)), (ind('A'), access(None, 3))] }),
+                mk(2, 'A', vec![1], 'G', GroupAction::Add { member: GroupMember::Group('H'), access: access(None, 2) }),
+                mk(3, 'B', vec![1], 'H', GroupAction::Add { member: GroupMember::Group('G'), access: access(None, 1) }),
+            ], vec![vec![0, 1, 2, 3], vec![0, 1, 3, 2]]),
+            ("operation of a concurrently removed manager that lists one dependency twice", vec![
+                mk(0, 'A', vec![], 'G', GroupAction::Create { initial_members: vec![(ind('A'), access(None, 3)), (ind('B'), access(None, 3)), (ind('C'), access(None, 1))] }),
+                mk(1, 'A', vec![0], 'G', GroupAction::Remove { member: ind('B') }),
+                mk(2, 'A', vec![0], 'G', GroupAction::Promote { member: ind('C'), access: access(None, 2) }),
+                mk(3, 'B', vec![2, 2], 'G', GroupAction::Add { member: ind('D'), access: access(None, 1) }),
+            ], vec![vec![0, 1, 2, 3], vec![0, 2, 3, 1], vec![0, 2, 1, 3]]),
+            ("three concurrent branches joined by an operation with two dependencies", vec![
+                mk(0, 'A', vec![], 'G', GroupAction::Create { initial_members: vec![(ind('A'), access(None, 3)), (ind('B'), access(None, 3)), (ind('C'), access(None, 3))] }),
+                mk(1, 'C', vec![0], 'G', GroupAction::Add { member: ind('E'), access: access(None, 1) }),
+                mk(2, 'A', vec![0], 'G', GroupAction::Remove { member: ind('B') }),
+                mk(3, 'A', vec![2], 'G', GroupAction::Add { member: ind('D'), access: access(None, 1) }),
+                mk(4, 'C', vec![1, 2], 'G', GroupAction::Demote { member: ind('E'), access: access(None, 0) }),
+            ], vec![vec![0, 1, 2, 3, 4], vec![0, 2, 3, 1, 4], vec![0, 2, 1, 4, 3], vec![0, 1, 2, 4, 3]]),
+        ];
+        for (what, ops, orders) in scenarios {
+            n += 1;
+            let mut outcomes = BTreeSet::new();
+            for order in &orders {
+                let mut y = G::init();
+                let mut accepted = vec![];
+                for i in order { match process(y, &ops[*i]) { Ok(y2) => { y = y2; accepted.push(ops[*i].id); } Err(y2) => y = y2 } }
+                accepted.sort();
+                let v = view(&y, &['G', 'H']);
+                outcomes.insert((accepted, v));
+            }
+            if outcomes.len() > 1 && reported.insert("replicas-diverge-on-unconditioned-history") {
+                rp_core::report(true, "replicas-diverge-on-unconditioned-history", json!({"scenario": what, "ops": ops.iter().map(show_op).collect::<Vec<_>>(), "delivery_orders": orders}),
+                    json!({"distinct_outcomes(accepted ids, members of G)": outcomes.iter().map(|(a, v)| json!({"accepted": a, "members_of_G": v[&'G'].0.iter().map(|(id, c, r)| json!([id.to_string(), c, r])).collect::<Vec<_>>()})).collect::<Vec<_>>()}),
+                    &["bounded-stand-in", kernel[0], kernel[1]]);
+            }
+        }
+    }
     println!("{}", json!({"summary": true, "evaluations": n, "distinct_nontrivial": n, "exhaustive": false,
-        "rule": "part 3: diamond of nested groups (Y in X, X and Y in R) over all 81 level combinations x 16 replicas x 2 queries; part 1: all ordered pairs of distinct accesses over conditions {None,0,1} x 4 levels as two concurrent access changes of one member, both delivery orders, 24 repeated queries each; part 2: 400 random histories of <= 10 operations created concurrently by 3 replicas (create/add/remove/promote/demote/nested group, unconditioned), each delivered to 4 fresh replicas in random causal orders, 3 repeated queries",
+        "rule": "part 4: three directed concurrent histories (mutual nesting, repeated dependency entry, two-dependency join) in every listed delivery order; part 3: diamond of nested groups (Y in X, X and Y in R) over all 81 level combinations x 16 replicas x 2 queries; part 1: all ordered pairs of distinct accesses over conditions {None,0,1} x 4 levels as two concurrent access changes of one member, both delivery orders, 24 repeated queries each; part 2: 400 random histories of <= 10 operations created concurrently by 3 replicas (create/add/remove/promote/demote/groups nested either way, now and then a repeated dependency entry; unconditioned), each delivered to 4 fresh replicas in random causal orders, 3 repeated queries",
         "bound": "2 groups, 4 actors, <= 10 operations per history, 400 histories, fixed seed", "violating_classes": reported}));
 }
